@@ -114,6 +114,37 @@ Definition parse_softfork_arguments (d : dialect) (args : sexp) : res (opset * s
 Definition current_extensions (s : mstate) : opset :=
   match guards s with g :: _ => g_opset g | [] => OsDefault end.
 
+(* the softfork branch of apply_op: [s] is the state after the three pops *)
+Definition enter_guard (d : dialect) (s : mstate) (operand_list : sexp) (current_cost max_cost : N)
+  : res (N * mstate) :=
+  do fst_arg <- first operand_list;
+  do expected_cost <- uint_atom 8 (f_canonical_ints (d_flags d)) fst_arg;
+  if max_cost <? expected_cost then Err CostExceeded
+  else if expected_cost =? 0 then Err CostExceeded
+  else
+    match parse_softfork_arguments d operand_list with
+    | Err err =>
+        if d_allow_unknown d then Ok (expected_cost, push nil_s s) else Err err
+    | Ok (ext, prg, env) =>
+        if f_limit_softfork (d_flags d) && (SOFTFORK_DEPTH_LIMIT <=? length (guards s))%nat
+        then Err SoftforkStackDepth
+        else
+          let expected :=
+            match ext with
+            | OsPreHardFork =>
+                match guards s with
+                | g :: _ => g_expected g
+                | [] => current_cost + max_cost
+                end
+            | _ => current_cost + expected_cost
+            end in
+          let s4 := {| vals := vals s; envs := envs s; ops := OExitGuard :: ops s;
+                       guards := {| g_expected := expected; g_opset := ext |} :: guards s |} in
+          let guard_cost := if f_new_cost_model (d_flags d) then NEW_GUARD_COST else GUARD_COST in
+          do '(c, s5) <- eval_pair d s4 prg env;
+          Ok (c + guard_cost, s5)
+    end.
+
 Definition apply_op (d : dialect) (s : mstate) (current_cost max_cost : N) : res (N * mstate) :=
   do '(operand_list, s1) <- pop s;
   do '(operator, s2) <- pop s1;
@@ -126,33 +157,7 @@ Definition apply_op (d : dialect) (s : mstate) (current_cost max_cost : N) : res
         do '(c, s4) <- eval_pair d s3 new_operator env;
         Ok (c + APPLY_COST, s4)
       else if is_kw operator (d_softfork d) then
-        do fst_arg <- first operand_list;
-        do expected_cost <- uint_atom 8 (f_canonical_ints (d_flags d)) fst_arg;
-        if max_cost <? expected_cost then Err CostExceeded
-        else if expected_cost =? 0 then Err CostExceeded
-        else
-          match parse_softfork_arguments d operand_list with
-          | Err err =>
-              if d_allow_unknown d then Ok (expected_cost, push nil_s s3) else Err err
-          | Ok (ext, prg, env) =>
-              if f_limit_softfork (d_flags d) && (SOFTFORK_DEPTH_LIMIT <=? length (guards s3))%nat
-              then Err SoftforkStackDepth
-              else
-                let expected :=
-                  match ext with
-                  | OsPreHardFork =>
-                      match guards s3 with
-                      | g :: _ => g_expected g
-                      | [] => current_cost + max_cost
-                      end
-                  | _ => current_cost + expected_cost
-                  end in
-                let s4 := {| vals := vals s3; envs := envs s3; ops := OExitGuard :: ops s3;
-                             guards := {| g_expected := expected; g_opset := ext |} :: guards s3 |} in
-                let guard_cost := if f_new_cost_model (d_flags d) then NEW_GUARD_COST else GUARD_COST in
-                do '(c, s5) <- eval_pair d s4 prg env;
-                Ok (c + guard_cost, s5)
-          end
+        enter_guard d s3 operand_list current_cost max_cost
       else
         do '(c, v) <- d_op d operator operand_list max_cost (current_extensions s3);
         Ok (c, push v s3)
